@@ -67,6 +67,7 @@ func init() {
 const rule = "PRNG histories (seed+tier determine the list): blob of 0-32 pieces, piece length 1-512, last piece short or full; " +
 	"a shuffled multiset of piece writes {correct x0-3 per piece, corrupt, other-piece content, short, long, empty, failing reader, index n, index >n, index <0} " +
 	"(25% of histories leave 1-3 pieces without any correct write; 15% are hot-spot bursts on one piece) consumed by W in {1,2,4,8} writers plus an observer; " +
+	"download store with read/write part sizes in {0,100,4096,40000}; ~5% of histories use 1-4 pieces of 32-100 KiB; 20% inject one store I/O failure (Close / Write / half Write / Seek) into the first correct write holding a PRNG-chosen piece; " +
 	"then a sequential repair phase writing every missing piece. non-trivial = >=2 pieces, >=1 rejected bad payload and >=1 duplicate-or-conflicting correct write; " +
 	"distinct = distinct (layout, W, write list)."
 
@@ -78,13 +79,23 @@ type wop struct {
 	Arg   int    `json:"a,omitempty"`
 }
 
+// faultSpec: one injected I/O failure at the store boundary, on the file
+// handle of the first correct write that holds piece Piece.
+type faultSpec struct {
+	Op    string `json:"op"` // close | write | write-partial | seek
+	Piece int    `json:"piece"`
+}
+
 type history struct {
-	N        int    `json:"pieces"`
-	PL       int    `json:"pl"`
-	Size     int    `json:"size"`
-	W        int    `json:"writers"`
-	Mode     string `json:"mode"`
-	Ops      []wop  `json:"ops"`
+	N        int        `json:"pieces"`
+	PL       int        `json:"pl"`
+	Size     int        `json:"size"`
+	W        int        `json:"writers"`
+	Mode     string     `json:"mode"`
+	Ops      []wop      `json:"ops"`
+	RP       int        `json:"read_part_size"`
+	WP       int        `json:"write_part_size"`
+	Fault    *faultSpec `json:"fault,omitempty"`
 	blobSeed int64
 }
 
@@ -97,6 +108,7 @@ type record struct {
 	nilRes   bool
 	errCompl bool
 	panicked bool
+	faulted  bool // the injected store fault fired inside this call
 }
 
 var pls = []int{1, 2, 3, 7, 16, 64, 100, 512}
@@ -117,6 +129,24 @@ func genHistory(r *rand.Rand, i int) *history {
 		h.PL = 1 + r.Intn(512)
 	} else {
 		h.PL = pls[r.Intn(len(pls))]
+	}
+	// store configuration: read/write part sizes (0 = unlimited)
+	parts := []int{0, 0, 100, 4096, 40000}
+	h.RP, h.WP = parts[r.Intn(len(parts))], parts[r.Intn(len(parts))]
+	if r.Intn(20) == 0 {
+		// few large pieces: io.Copy hands them to the store in 32 KiB writes
+		h.N = 1 + r.Intn(4)
+		h.PL = 32<<10 + 1 + r.Intn(68<<10)
+		if r.Intn(4) != 0 {
+			h.WP = parts[3+r.Intn(2)]
+			h.RP = parts[3+r.Intn(2)]
+		}
+		if h.WP == 100 {
+			h.WP = 4096 // 100-byte parts on 100 KiB pieces only cost syscalls
+		}
+		if h.RP == 100 {
+			h.RP = 4096
+		}
 	}
 	if h.N > 0 {
 		last := 1 + r.Intn(h.PL)
@@ -184,6 +214,9 @@ func genHistory(r *rand.Rand, i int) *history {
 		}
 	}
 	r.Shuffle(len(h.Ops), func(a, b int) { h.Ops[a], h.Ops[b] = h.Ops[b], h.Ops[a] })
+	if r.Intn(5) == 0 {
+		h.Fault = &faultSpec{Op: []string{"close", "close", "write", "write-partial", "seek"}[r.Intn(5)], Piece: r.Intn(h.N)}
+	}
 	return h
 }
 
@@ -228,7 +261,7 @@ type env struct {
 	mic     *fakeMetaInfoClient
 }
 
-func newEnv(t testing.TB, root string) *env {
+func newEnv(t testing.TB, root string, rp, wp int) *env {
 	dir, err := os.MkdirTemp(root, "s")
 	if err != nil {
 		t.Fatalf("mkdir: %v", err)
@@ -238,12 +271,79 @@ func newEnv(t testing.TB, root string) *env {
 		CacheDir:        filepath.Join(dir, "cache"),
 		DownloadCleanup: store.CleanupConfig{Disabled: true},
 		CacheCleanup:    store.CleanupConfig{Disabled: true},
+		ReadPartSize:    rp,
+		WritePartSize:   wp,
 	}, tally.NoopScope)
 	if err != nil {
 		t.Fatalf("cads: %v", err)
 	}
 	mic := &fakeMetaInfoClient{m: map[core.Digest]*core.MetaInfo{}}
 	return &env{cads: cads, mic: mic, archive: agentstorage.NewTorrentArchive(tally.NoopScope, cads, mic)}
+}
+
+var errInjected = errors.New("injected store I/O error")
+
+// faultStore wraps the download store handed to agentstorage.NewTorrent: the
+// file handle of the first armed write that seeks to the fault piece fails
+// once in Seek, Write (nothing or half written) or Close (after the real
+// close). Everything else passes through to the real store.
+type faultStore struct {
+	*store.CADownloadStore
+	spec    faultSpec
+	pl      int
+	stamp   *atomic.Int64
+	armed   atomic.Bool
+	fired   atomic.Bool
+	firedAt atomic.Int64
+}
+
+func (s *faultStore) GetDownloadFileReadWriter(name string) (store.FileReadWriter, error) {
+	f, err := s.CADownloadStore.GetDownloadFileReadWriter(name)
+	if err != nil {
+		return nil, err
+	}
+	return &faultFile{FileReadWriter: f, s: s}, nil
+}
+
+type faultFile struct {
+	store.FileReadWriter
+	s     *faultStore
+	hit   bool
+	wrote bool
+}
+
+func (f *faultFile) Seek(off int64, whence int) (int64, error) {
+	s := f.s
+	if whence == io.SeekStart && off == int64(s.spec.Piece)*int64(s.pl) && s.armed.Load() && s.fired.CompareAndSwap(false, true) {
+		f.hit = true
+		s.firedAt.Store(s.stamp.Add(1))
+		if s.spec.Op == "seek" {
+			return 0, errInjected
+		}
+	}
+	return f.FileReadWriter.Seek(off, whence)
+}
+
+func (f *faultFile) Write(p []byte) (int, error) {
+	if f.hit && !f.wrote {
+		f.wrote = true
+		switch f.s.spec.Op {
+		case "write":
+			return 0, errInjected
+		case "write-partial":
+			n, _ := f.FileReadWriter.Write(p[:len(p)/2])
+			return n, errInjected
+		}
+	}
+	return f.FileReadWriter.Write(p)
+}
+
+func (f *faultFile) Close() error {
+	err := f.FileReadWriter.Close()
+	if f.hit && f.s.spec.Op == "close" {
+		return errInjected
+	}
+	return err
 }
 
 // pieceOf returns the blob's piece p.
@@ -352,6 +452,9 @@ type monitor struct {
 	accepted      []atomic.Bool // a correct write of i returned nil
 	acceptedCount atomic.Int64
 
+	fs     *faultStore                     // nil: no fault in this history
+	reopen func() (storage.Torrent, error) // a fresh Torrent instance on the same files
+
 	mu       sync.Mutex
 	recs     []record
 	violated bool
@@ -381,6 +484,10 @@ func (m *monitor) write(t storage.Torrent, writer int, op wop) (rec record) {
 	if op.Kind == "correct" && m.h.N > 0 {
 		m.correctCalled[idx].Store(true)
 	}
+	arm := m.fs != nil && op.Kind == "correct" && idx == m.fs.spec.Piece && !m.fs.fired.Load()
+	if arm {
+		m.fs.armed.Store(true)
+	}
 	rec.Call = m.stamp.Add(1)
 	func() {
 		defer func() {
@@ -400,6 +507,17 @@ func (m *monitor) write(t storage.Torrent, writer int, op wop) (rec record) {
 		}
 	}
 	rec.Ret = m.stamp.Add(1)
+	if arm {
+		m.fs.armed.Store(false)
+	}
+	if m.fs != nil && idx == m.fs.spec.Piece && m.fs.fired.Load() {
+		// only the call that held the piece can have used the failing handle
+		if at := m.fs.firedAt.Load(); at > rec.Call && at < rec.Ret && rec.Res != "conflict" && !rec.errCompl &&
+			rec.Res != "invalid-length" && rec.Res != "invalid-index" {
+			rec.faulted = true
+			m.run.Count("fault_fired_"+m.fs.spec.Op+"_result_"+strings.SplitN(rec.Res, ":", 2)[0], 1)
+		}
+	}
 	m.mu.Lock()
 	m.recs = append(m.recs, rec)
 	m.mu.Unlock()
@@ -603,7 +721,7 @@ func (m *monitor) quiescent(t storage.Torrent, phase string) storage.Torrent {
 	} else if !info.Bitfield().Equal(bf) {
 		m.violation("reopen/stat-bitfield-differs", map[string]string{"live": bf.String(), "stat": info.Bitfield().String()})
 	}
-	t2, err := m.env.archive.GetTorrent("ns", m.d)
+	t2, err := m.reopen()
 	if err != nil {
 		m.violation("reopen/gettorrent-error", err.Error())
 		return t
@@ -665,6 +783,12 @@ func (m *monitor) checkRecords() (rejectedBad, dupOrConflict int) {
 				}
 				continue
 			}
+			if rc.faulted {
+				// the store failed under this write: refusing it is legal, what
+				// must hold is that the piece then counts as not written
+				m.run.Count("correct_write_refused_after_injected_fault", 1)
+				continue
+			}
 			dupOrConflict++
 			// correct write refused: legal only as "complete" (an accepted
 			// write exists that was called before this one returned) or
@@ -695,9 +819,14 @@ func (m *monitor) checkRecords() (rejectedBad, dupOrConflict int) {
 	return
 }
 
-func runHistory(t *testing.T, run *ev.Run, e *env, caseID string, i int) {
+func runHistory(t *testing.T, run *ev.Run, envs map[[2]int]*env, root, caseID string, i int) {
 	r := run.Rand(caseID)
 	h := genHistory(r, i)
+	e := envs[[2]int{h.RP, h.WP}]
+	if e == nil {
+		e = newEnv(t, root, h.RP, h.WP)
+		envs[[2]int{h.RP, h.WP}] = e
+	}
 	blob := gen.Bytes(rand.New(rand.NewSource(h.blobSeed)), h.Size)
 	d, err := core.NewDigester().FromBytes(blob)
 	if err != nil {
@@ -718,6 +847,25 @@ func runHistory(t *testing.T, run *ev.Run, e *env, caseID string, i int) {
 	}
 	m := &monitor{run: run, caseID: caseID, h: h, blob: blob, d: d, env: e,
 		correctCalled: make([]atomic.Bool, h.N), accepted: make([]atomic.Bool, h.N)}
+	m.reopen = func() (storage.Torrent, error) { return e.archive.GetTorrent("ns", d) }
+	if h.Fault != nil && h.N > 0 {
+		// the archive has created the files; the instance under test is built
+		// on the fault-injecting store (the archive's own instance is dropped
+		// unused: one instance per file at a time)
+		m.fs = &faultStore{CADownloadStore: e.cads, spec: *h.Fault, pl: h.PL, stamp: &m.stamp}
+		m.reopen = func() (storage.Torrent, error) { return agentstorage.NewTorrent(m.fs, mi) }
+		ft, err := m.reopen()
+		if err != nil {
+			run.Violation("create-torrent-error", caseID, map[string]interface{}{"history": h, "err": err.Error()})
+			return
+		}
+		tor = ft
+		run.Count("histories_with_injected_fault_"+h.Fault.Op, 1)
+	}
+	if h.PL > 32<<10 {
+		run.Count("histories_with_pieces_over_32KiB", 1)
+	}
+	run.Count(fmt.Sprintf("store_write_part_size_%d", h.WP), 1)
 
 	// concurrent phase
 	var next atomic.Int64
@@ -775,6 +923,9 @@ func runHistory(t *testing.T, run *ev.Run, e *env, caseID string, i int) {
 				m.write(tor, -1, wop{Kind: "corrupt", Piece: p, Arg: r.Intn(1 << 20)})
 			}
 			rec := m.write(tor, -1, wop{Kind: "correct", Piece: p})
+			if rec.faulted && !rec.nilRes {
+				rec = m.write(tor, -1, wop{Kind: "correct", Piece: p}) // the fault fires once
+			}
 			if !rec.nilRes && !rec.panicked {
 				m.violation("repair/correct-write-on-missing-piece-refused", rec)
 			}
@@ -851,7 +1002,13 @@ func TestC03(t *testing.T) {
 		wg.Add(1)
 		go func() {
 			defer wg.Done()
-			e := newEnv(t, root)
+			envs := map[[2]int]*env{} // one store per (read, write) part size
+			closeAll := func() {
+				for k, e := range envs {
+					e.cads.Close()
+					delete(envs, k)
+				}
+			}
 			cnt := 0
 			for i := range idx {
 				caseID := fmt.Sprintf("h/%d", i)
@@ -859,12 +1016,11 @@ func TestC03(t *testing.T) {
 					continue
 				}
 				if cnt++; cnt%200 == 0 {
-					e.cads.Close()
-					e = newEnv(t, root)
+					closeAll()
 				}
-				runHistory(t, run, e, caseID, i)
+				runHistory(t, run, envs, root, caseID, i)
 			}
-			e.cads.Close()
+			closeAll()
 		}()
 	}
 	wg.Wait()
